@@ -45,10 +45,13 @@ REQUIRED_THEOREMS = [
     "C05_oneUnsew3_succeeds", "C05_twoUnsew3_succeeds", "C05_threeUnsew3_succeeds", "C05_threeSew3_vertices_far",
     "C05_twoSew3_cells_free", "C05_twoSew3_cells_left", "C05_twoSew3_cells_right",
     "C05_twoUnsew3_cells_free", "C05_twoUnsew3_cells_left", "C05_twoUnsew3_cells_right",
+    "C05_threeSew3_cells_open", "C05_threeUnsew3_cells_open",
+    "C05_oneUnsew3_succeeds_law", "C05_twoUnsew3_succeeds_law", "C05_threeUnsew3_succeeds_law",
+    "C05_threeSew3_vertices_far_open",
 ]
 
 SPEC = {
-    "lean_modules": ["Honeycomb.Props.C05", "Honeycomb.Props.C05Cells", "Honeycomb.Props.C05Cells2", "Honeycomb.Props.C05Succ"],
+    "lean_modules": ["Honeycomb.Props.C05", "Honeycomb.Props.C05Cells", "Honeycomb.Props.C05Cells2", "Honeycomb.Props.C05Succ", "Honeycomb.Props.C05Cells3", "Honeycomb.Props.C05SuccLaw", "Honeycomb.Props.C05Cells3Data"],
     "required_theorems": REQUIRED_THEOREMS,
     "trusted_base": [
         "Lean 4.33 kernel; axioms propext, Classical.choice, Quot.sound only",
@@ -88,8 +91,17 @@ SPEC = {
         "(`Disj`): C05_threeSew3_vertices_far (Props/C05Succ.lean) gives the data clause of the 3-sew under the cell-level hypothesis "
         "alone. Open-face arms of the 2-sew/2-unsew (outside the property's scope): C05_twoSew3_cells_free/_left/_right, "
         "C05_twoUnsew3_cells_free/_left/_right (general partition through `pairsV2`; ids = minima when the open dart is 3-free). "
-        "NOT proved: open faces for 3-(un)sews, and the per-pair edge identifiers inside the 3-unsew chain (they are cell minima of "
-        "the unlinked map by C05_edgeId3_is_cell_min, not extracted from the chain); oracle for the rest",
+        "Open faces for 3-sew / 3-unsew (outside the property's scope; Props/C05Cells3.lean): C05_threeSew3_cells_open, "
+        "C05_threeUnsew3_cells_open — three_link / three_unlink link / unlink exactly `openPairs` (F darts forward along β1/β0, B "
+        "backward along β0/β1, both faces of the same shape), the zipped face walks list exactly these pairs, face/edge/vertex "
+        "partitions = old ones with ld-rd, the pairs, resp. `codePairs` (head l - r for every pair, head = β1 else β2, dropped when "
+        "null; l - head r for the dart without predecessor) united; face ids, collected ids and every id of the 3-unsew splitting "
+        "loop (`UnsewnCells`, extracted from the chain — also valid on closed faces through `unsewn_cells`) are cell minima (null for a "
+        "missing head); under the proviso the merged-into / split-from id `min` is the minimum of the united cell. The vertex data clause on open faces under the cell-level "
+        "proviso alone: C05_threeSew3_vertices_far_open (Props/C05Cells3Data.lean; proviso stated on `codePairs` in the order of the "
+        "zipped walks). NOT proved on open faces: success of the 3-unsew (it FAILS on an embedded mesh whenever a linked dart has "
+        "neither a successor nor a 2-neighbour: three_unsew calls vertices.split(NULL, v, NULL) where three_sew filters the null "
+        "identifier out — observed on /repo 94962f9, outside the property's closed-face scope); oracle for the rest",
         "'unsew succeeds on any sewn dart of a fully embedded mesh, every resulting vertex has coordinates obtained by splitting': "
         "PROVED (Props/C05Succ.lean) for configurations without user storages on vertices/edges/faces and a total built-in vertex "
         "split (`PlainCfg`, e.g. stdCfg 4 0), fc = 0, on well-formed mirrored maps with closed faces: C05_oneUnsew3_succeeds (dart "
@@ -98,8 +110,14 @@ SPEC = {
         "no self glue: C02b shows the guarded API keeps both — three_unlink returns Ok unconditionally; under the proviso on the L "
         "splits the whole call returns Ok): the call returns Ok and the result is again well-formed, mirrored and Embedded (every "
         "vertex identifier = cell minimum of an in-use dart holds a value; the values are the halves of split of the old ones by "
-        "`SplitIn` in the *_cells theorems, which apply to these runs). NOT proved: success with user storages whose split can fail, "
-        "and outside the proviso (a vertex taking part in two splits of one call): oracle",
+        "`SplitIn` in the *_cells theorems, which apply to these runs). With ARBITRARY laws (user storages whose split can fail; "
+        "Props/C05SuccLaw.lean): C05_oneUnsew3_succeeds_law, C05_twoUnsew3_succeeds_law, C05_threeUnsew3_succeeds_law — same "
+        "settings, any configuration: the call returns Ok when every vertex / edge / face storage law splits the value held, in "
+        "the map before the call, at the identifier (cell minimum) of each cell that is split; under the proviso no law call reads "
+        "a value written earlier in the same call. forM_split_run / forM_split_err: a split_attributes loop returns Ok iff every "
+        "law call succeeds, else the error of the first failing storage (the enclosing transaction aborts: C06). The result of an "
+        "Ok run is described at cell level, law as a parameter, by the *_cells theorems (SplitIn). NOT proved: `again splittable` "
+        "for the result (a user law need not split its own halves), and outside the proviso: oracle",
         "ring-closing configurations where a cell takes part in two identifications of one call, and every other such configuration: "
         "correspondence only (the data clause of the oracle is skipped there, counted as skipped-multi)",
         "D13 (1-sew/1-unsew of a dart of a 3-sewn face misplaced the vertex data: vertex_id_transac was not symmetric on the open "
